@@ -46,6 +46,7 @@ def handle (line : String) : String :=
   | "res" :: args => Driver.ResP.handle args
   | "len" :: args => Driver.LenP.handle args
   | "mixed" :: args => Driver.MixP.handle args
+  | "textflow" :: args => Driver.MixP.textHandle args
   | "width" :: args => Driver.WidthP.handle args
   | "widthspec" :: args => Driver.WidthP.handleSpec args
   | "refcmp" :: args => Driver.RefP.cmpHandle args
